@@ -54,7 +54,7 @@ m = {
  "hooks": {
    "guard": "--cfg vibesql_verif",
    "enable": "RUSTFLAGS='--cfg vibesql_verif' via /verif/harness/.cargo/config.toml; the harness crate has path dependencies on /repo/crates/*, so every ./check rebuilds from /repo's working tree with hooks on",
-   "baseline_off_cmd": "cd /repo && RUSTC_WRAPPER= cargo test --workspace --no-fail-fast --offline",
+   "baseline_off_cmd": "cd /repo && RUSTC_WRAPPER= RUST_MIN_STACK=67108864 cargo test --workspace --no-fail-fast --offline",
    "source_commits": hooks,
    "add_only": True,
  },
